@@ -1,7 +1,8 @@
 (* Props/C11.v — property theorems only.  Model: Model/Addr.v (hand-written,
    tied to pycel.excelutil by the correspondence run of harness/props/c11.py). *)
 From Coq Require Import ZArith List.
-From PV Require Import Lib.Py Model.Addr Proofs.C11 Proofs.C11Lattice Proofs.C11Parse Proofs.C11Notation.
+From PV Require Import Lib.Py Model.Addr Proofs.C11 Proofs.C11Lattice Proofs.C11Parse Proofs.C11Notation
+  Proofs.C11Unbounded Proofs.C11UnboundedParse Proofs.C11Spellings.
 Import ListNotations.
 Open Scope Z_scope.
 
@@ -137,3 +138,155 @@ Theorem C11_offset_wrap : forall s c r dr dc, 1 <= c <= MAX_COL -> 1 <= r <= MAX
   /\ address_at_offset (ACell s c r) 0 0 = Ok (ACell s c r).
 Proof. exact offset_wrap. Qed.
 Print Assumptions C11_offset_wrap.
+
+(* ---------------------------------------------------------------------------
+   (f) UNBOUNDED ranges: whole columns A:C = (c1, 0, c2, 0), whole rows 2:5 =
+   (0, r1, 0, r2) — a corner coordinate 0 is "no limit on this axis".
+   [uwf]: every axis is bounded on the sheet or of the form (0, k); [uinside]: the
+   cells, clipped to the sheet (A:C = A1:C1048576); [unorm s r]: the address.
+   What the faithful model refutes is in Refuted/C11_unbounded.v. *)
+(* print/parse round trip of whole-column / whole-row ranges, three forms *)
+Theorem C11_roundtrip_unbounded_plain : forall a, unbounded_on_sheet a -> sheet_ok (a_sheet a) = true ->
+  create (address a) [] None = Ok (VA a).
+Proof. exact roundtrip_unbounded_plain. Qed.
+Print Assumptions C11_roundtrip_unbounded_plain.
+Theorem C11_roundtrip_unbounded_quoted : forall a, unbounded_on_sheet a -> sheet_ok_quoted (a_sheet a) = true ->
+  create (quoted_address a) [] None = Ok (VA a).
+Proof. exact roundtrip_unbounded_quoted. Qed.
+Print Assumptions C11_roundtrip_unbounded_quoted.
+(* partial: [abs_form_ok] excludes the single-column range A:A, whose printed absolute
+   form $A$0:$A$0 reads back as the "cell" (1, 0) (C11_unbounded_abs_roundtrip_refuted) *)
+Theorem C11_roundtrip_unbounded_abs_partial : forall a, unbounded_on_sheet a -> abs_form_ok a ->
+  sheet_ok_quoted (a_sheet a) = true -> create (abs_address a) [] None = Ok (VA a).
+Proof. exact roundtrip_unbounded_abs. Qed.
+Print Assumptions C11_roundtrip_unbounded_abs_partial.
+(* Excel's own absolute spelling $A:$C / $2:$5 denotes the same range *)
+Theorem C11_parse_unbounded_dollar : forall a, unbounded_on_sheet a -> sheet_ok_quoted (a_sheet a) = true ->
+  create (form_prefix 1 (a_sheet a) ++ excel_abs_coordinate a) [] None = Ok (VA a).
+Proof. exact parse_excel_abs. Qed.
+Print Assumptions C11_parse_unbounded_dollar.
+(* partial: __contains__ is sound for the clipped cells and exact on bounded ranges, but a
+   parsed whole-column / whole-row range contains NO cell (C11_unbounded_contains_refuted) *)
+Theorem C11_unbounded_contains_partial : forall s r c row, uwf r -> 1 <= c <= MAX_COL -> 1 <= row <= MAX_ROW ->
+  (contains (unorm s r) (ACell s c row) = Ok true -> uinside r c row)
+  /\ (unb_rect r = false -> (contains (unorm s r) (ACell s c row) = Ok true <-> uinside r c row))
+  /\ ((x1 r = 0 /\ x2 r = 0) \/ (y1 r = 0 /\ y2 r = 0) -> contains (unorm s r) (ACell s c row) = Ok false).
+Proof. exact ucontains_partial. Qed.
+Print Assumptions C11_unbounded_contains_partial.
+(* & of any two extended rectangles: the common cells EXCEPT that the last column / row of
+   the sheet is dropped on an axis where exactly one operand is unbounded ([ukept]);
+   #NULL! iff nothing is left *)
+Theorem C11_unbounded_intersection : forall s a b, uwf a -> uwf b ->
+  op_inter (VA (unorm s a)) (VA (unorm s b)) = Ok (umeet_val s a b)
+  /\ (empty_rect (umeet a b) = false -> uwf (umeet a b))
+  /\ (forall c row, empty_rect (umeet a b) = false /\ uinside (umeet a b) c row
+                    <-> uinside a c row /\ uinside b c row /\ ukept a b c row)
+  /\ (empty_rect (umeet a b) = true <->
+      ~ exists c row, uinside a c row /\ uinside b c row /\ ukept a b c row).
+Proof. exact uintersection_full. Qed.
+Print Assumptions C11_unbounded_intersection.
+(* ... hence exactly the common cells when no bounded axis reaches the sheet's last column / row
+   against an unbounded one (columns & columns, rows & rows, columns & rows, bounded & bounded, ...) *)
+Theorem C11_unbounded_intersection_exact : forall s a b, uwf a -> uwf b -> no_edge a b ->
+  op_inter (VA (unorm s a)) (VA (unorm s b)) = Ok (umeet_val s a b)
+  /\ (forall c row, empty_rect (umeet a b) = false /\ uinside (umeet a b) c row
+                    <-> uinside a c row /\ uinside b c row)
+  /\ (empty_rect (umeet a b) = true <-> ~ exists c row, uinside a c row /\ uinside b c row).
+Proof. exact uintersection_exact. Qed.
+Print Assumptions C11_unbounded_intersection_exact.
+(* ** of any two extended rectangles: the least extended rectangle containing both *)
+Theorem C11_unbounded_union : forall s a b, uwf a -> uwf b ->
+  op_union (VA (unorm s a)) (VA (unorm s b)) = Ok (VA (unorm s (ujoin a b)))
+  /\ uwf (ujoin a b)
+  /\ (forall c row, uinside a c row \/ uinside b c row -> uinside (ujoin a b) c row)
+  /\ (forall u, uwf u -> (forall c row, uinside a c row \/ uinside b c row -> uinside u c row) ->
+                forall c row, uinside (ujoin a b) c row -> uinside u c row).
+Proof. exact uunion_full. Qed.
+Print Assumptions C11_unbounded_union.
+(* partial: a & a = a ** a = [ucanon a], which has the cells of a, is a itself when a is bounded and
+   is a fixed point of both operators — but is NOT the address a when a is unbounded
+   (A:C & A:C = A:C1048575, C11_unbounded_idem_refuted) *)
+Theorem C11_unbounded_idem_partial : forall s a, uwf a ->
+  uwf (ucanon a)
+  /\ op_inter (VA (unorm s a)) (VA (unorm s a)) = Ok (VA (unorm s (ucanon a)))
+  /\ op_union (VA (unorm s a)) (VA (unorm s a)) = Ok (VA (unorm s (ucanon a)))
+  /\ (forall c row, uinside (ucanon a) c row <-> uinside a c row)
+  /\ op_inter (VA (unorm s (ucanon a))) (VA (unorm s (ucanon a))) = Ok (VA (unorm s (ucanon a)))
+  /\ op_union (VA (unorm s (ucanon a))) (VA (unorm s (ucanon a))) = Ok (VA (unorm s (ucanon a)))
+  /\ (unb_rect a = false -> ucanon a = a).
+Proof. exact uidem. Qed.
+Print Assumptions C11_unbounded_idem_partial.
+(* & is associative on extended rectangles, exactly (#NULL! handed on) *)
+Theorem C11_unbounded_inter_assoc : forall s a b c, uwf a -> uwf b -> uwf c ->
+  bind (op_inter (VA (unorm s a)) (VA (unorm s b))) (fun x => op_inter x (VA (unorm s c)))
+  = bind (op_inter (VA (unorm s b)) (VA (unorm s c))) (fun x => op_inter (VA (unorm s a)) x).
+Proof. exact uinter_assoc. Qed.
+Print Assumptions C11_unbounded_inter_assoc.
+(* partial: ** is associative up to the cells; the two addresses can differ
+   ((A:C ** E1048576) ** F1 = A:F1048575, A:C ** (E1048576 ** F1) = A:F1048576,
+   C11_unbounded_union_assoc_refuted) *)
+Theorem C11_unbounded_union_assoc_partial : forall s a b c, uwf a -> uwf b -> uwf c ->
+  bind (op_union (VA (unorm s a)) (VA (unorm s b))) (fun x => op_union x (VA (unorm s c)))
+    = Ok (VA (unorm s (ujoin (ujoin a b) c)))
+  /\ bind (op_union (VA (unorm s b)) (VA (unorm s c))) (fun x => op_union (VA (unorm s a)) x)
+    = Ok (VA (unorm s (ujoin a (ujoin b c))))
+  /\ (forall col row, uinside (ujoin (ujoin a b) c) col row <-> uinside (ujoin a (ujoin b c)) col row).
+Proof. exact uunion_assoc_cells. Qed.
+Print Assumptions C11_unbounded_union_assoc_partial.
+
+(* ... and exactly associative when no bounded axis of an operand reaches the sheet's last column / row *)
+Theorem C11_unbounded_union_assoc_exact : forall s a b c, uwf a -> uwf b -> uwf c -> inner a -> inner b -> inner c ->
+  bind (op_union (VA (unorm s a)) (VA (unorm s b))) (fun x => op_union x (VA (unorm s c)))
+  = bind (op_union (VA (unorm s b)) (VA (unorm s c))) (fun x => op_union (VA (unorm s a)) x).
+Proof. exact uunion_assoc_exact. Qed.
+Print Assumptions C11_unbounded_union_assoc_exact.
+(* the height x width of an extended rectangle is the size of its block of clipped cells *)
+Theorem C11_unbounded_size : forall s r c row, uwf r ->
+  uinside r c row <-> (Z.max 1 (x1 r) <= c < Z.max 1 (x1 r) + width (unorm s r)
+                       /\ Z.max 1 (y1 r) <= row < Z.max 1 (y1 r) + height (unorm s r)).
+Proof. exact usize_cells. Qed.
+Print Assumptions C11_unbounded_size.
+(* an unbounded range is never enumerated (resolve_range asserts `not is_unbounded_range`) *)
+Theorem C11_unbounded_not_enumerable : forall s r, uwf r -> unb_rect r = true ->
+  resolve_range (unorm s r) = Raise AssertionError.
+Proof. exact unot_enumerable. Qed.
+Print Assumptions C11_unbounded_not_enumerable.
+(* operands on two sheets: #VALUE! when two named sheets differ, else the results above on the named sheet *)
+Theorem C11_unbounded_sheets : forall sa sb a b, uwf a -> uwf b ->
+  op_inter (VA (unorm sa a)) (VA (unorm sb b))
+    = (if conflict sa sb then Ok (VE VALUE_ERROR) else Ok (umeet_val (pick sa sb) a b))
+  /\ op_union (VA (unorm sa a)) (VA (unorm sb b))
+    = (if conflict sa sb then Ok (VE VALUE_ERROR) else Ok (VA (unorm (pick sa sb) (ujoin a b)))).
+Proof. exact uvalue_sheets. Qed.
+Print Assumptions C11_unbounded_sheets.
+
+(* ---------------------------------------------------------------------------
+   (g) R1C1 spellings: each row / column component bare (R, C = the anchor's own),
+   absolute (R7) or relative (R[-2]); cells R..C.., ranges R..C..:R..C.., row-only
+   R..:R.. and column-only C..:C.. ranges.  From ANY anchor (ar, ac) and on any sheet
+   with sheet_ok, the text denotes the boundaries [sp_bounds] computed by offset
+   arithmetic with wrap-around (inc_row / inc_col, the functions of
+   address_at_offset), provided the text is not also an A1 reference
+   ([sp_unambiguous] excludes RC5, R1:R3, C2:C5, RC1:RC2, R:R, C:C, R:C, RC:RC,
+   which range_boundaries reads as A1 — Example ex_spell_ambiguous). *)
+Theorem C11_r1c1_spellings : forall s sp ar ac, sheet_ok s = true -> sp_ok sp -> sp_unambiguous sp = true ->
+  create (form_prefix 0 s ++ sp_text sp) [] (Some (ar, ac))
+  = bind (from_bounds s (sp_bounds (ar, ac) sp)) (fun a => Ok (VA a)).
+Proof. exact r1c1_spellings. Qed.
+Print Assumptions C11_r1c1_spellings.
+(* a cell reference whose components are bare or relative, from an anchor on the sheet: always a cell of the sheet *)
+Theorem C11_r1c1_spelling_cell : forall s r c ar ac, sheet_ok s = true -> rel_or_bare r -> rel_or_bare c ->
+  1 <= ac <= MAX_COL -> 1 <= ar <= MAX_ROW ->
+  create (form_prefix 0 s ++ sp_text (SpCell r c)) [] (Some (ar, ac))
+  = Ok (VA (ACell s (comp_val false (ar, ac) c) (comp_val true (ar, ac) r)))
+  /\ 1 <= comp_val false (ar, ac) c <= MAX_COL /\ 1 <= comp_val true (ar, ac) r <= MAX_ROW.
+Proof. exact r1c1_spelling_cell. Qed.
+Print Assumptions C11_r1c1_spelling_cell.
+(* without an anchor cell: an all-absolute spelling denotes the same boundaries; a bare or relative
+   component is an AssertionError *)
+Theorem C11_r1c1_spellings_no_anchor : forall s sp, sheet_ok s = true -> sp_ok sp -> sp_unambiguous sp = true ->
+  create (form_prefix 0 s ++ sp_text sp) [] None
+  = if sp_absolute sp then bind (from_bounds s (sp_bounds (0, 0) sp)) (fun a => Ok (VA a))
+    else Raise AssertionError.
+Proof. exact r1c1_spellings_no_anchor. Qed.
+Print Assumptions C11_r1c1_spellings_no_anchor.
